@@ -159,10 +159,14 @@ Proof.
 Qed.
 
 (* ASCII text literal helper: bytes of a Coq string *)
-From Coq Require Import String Ascii.
+From Coq Require Import Ascii.
+From Coq Require String.
+Export String.StringSyntax.
+Import String.
 Fixpoint bytes_of_string (s : string) : bytes :=
   match s with
   | EmptyString => []
   | String a r => byte_of_ascii a :: bytes_of_string r
   end.
 Notation "'B' s" := (bytes_of_string s%string) (at level 0, s at level 0, only parsing).
+Delimit Scope string_scope with string.
